@@ -35,7 +35,9 @@ Judge(e, s) ==
         b == s.kb[e.k]
         b2 == IF e.op = "editlabel" THEN [b EXCEPT !.L[e.s + 1] = IF e.add THEN @ \cup {Quote(e.a)} ELSE @ \ {Quote(e.a)}]
               ELSE [b EXCEPT !.R = @ \cup {<<e.s, e.d>>}]
-        s2 == [s EXCEPT !.pk[e.k] = K2, !.kb[e.k] = b2, !.memo = [key \in {x \in DOMAIN s.memo : x[1] # e.k} |-> s.memo[key]]]
+        \* "noop": the library offered the caller no way to make this edit (e.g. label sets are handed out as immutable copies)
+        s2 == IF Has(e, "noop") THEN s
+              ELSE [s EXCEPT !.pk[e.k] = K2, !.kb[e.k] = b2, !.memo = [key \in {x \in DOMAIN s.memo : x[1] # e.k} |-> s.memo[key]]]
         v == IF Has(e, "err") THEN "MACHINERY:edit failed " \o e.err
              ELSE IF ObjectsIntact(e, s2) # "ok" THEN "MACHINERY:edit not reflected in the projection"
              ELSE IF ResOf(e) # s.res THEN "violation:results-changed"
